@@ -127,6 +127,25 @@ struct PC : virtual VBase
     }
 };
 
+// over-aligned payload: allocation and deallocation must both honour the alignment
+struct alignas(64) PD
+{
+    int id;
+    int value;
+    char block[100];
+    explicit PD(int v) : value(v)
+    {
+        id = preg().born(this, 'D');
+        if (reinterpret_cast<std::uintptr_t>(this) % 64 != 0 && preg().error.empty())
+            preg().error = "over-aligned payload constructed at a misaligned address";
+    }
+    PD(const PD&) = delete;
+    ~PD()
+    {
+        preg().died(this, 'D');
+    }
+};
+
 // ------------------------------------------------------------------- case
 
 enum QCode
@@ -213,7 +232,7 @@ std::string describe(const Case& c)
         {
             o << " " << qname(op.code) << "(s" << op.a % 4;
             if (op.code == Q_MAKE)
-                o << ",P" << "ABC"[op.b % 3] << "," << op.v;
+                o << ",P" << "ABCD"[op.b % 4] << "," << op.v;
             if (op.code == Q_MOVE_CONSTRUCT || op.code == Q_MOVE_ASSIGN)
                 o << "<-s" << op.b % 4;
             if (op.code == Q_VEC_TO_SLOT)
@@ -321,13 +340,15 @@ static std::string check_quaint(const Case& c, vf::Ctx& ctx)
                 if (ms[a].id)
                     nontrivial = true; // overwriting an owning pointer
                 int before = preg().next_id;
-                char type = "ABC"[op.b % 3];
+                char type = "ABCD"[op.b % 4];
                 if (type == 'A')
                     slot[a] = make_quaint<PA>(op.v);
                 else if (type == 'B')
                     slot[a] = make_quaint<PB>(op.v);
-                else
+                else if (type == 'C')
                     slot[a] = make_quaint<PC>(op.v);
+                else
+                    slot[a] = make_quaint<PD>(op.v);
                 ms[a] = Owned{ before, type, op.v };
                 break;
             }
@@ -461,10 +482,12 @@ static std::string check_quaint(const Case& c, vf::Ctx& ctx)
                     {
                         int v = ms[a].type == 'A'   ? slot[a].as<PA>().value
                                 : ms[a].type == 'B' ? slot[a].as<PB>().value
-                                                    : slot[a].as<PC>().value;
+                                : ms[a].type == 'C' ? slot[a].as<PC>().value
+                                                    : slot[a].as<PD>().value;
                         int id = ms[a].type == 'A'   ? slot[a].as<PA>().id
                                  : ms[a].type == 'B' ? slot[a].as<PB>().id
-                                                     : slot[a].as<PC>().id;
+                                 : ms[a].type == 'C' ? slot[a].as<PC>().id
+                                                     : slot[a].as<PD>().id;
                         if (v != ms[a].value || id != ms[a].id)
                             err = "as<T>() reads payload #" + std::to_string(id) + " value " +
                                   std::to_string(v) + ", model owns #" + std::to_string(ms[a].id) +
